@@ -249,3 +249,51 @@ def install(casbin_rwlock_module, sched):
         set_current(None)
 
     return undo
+
+
+class FakeLock(FakeRLock):
+    """cooperative NON re-entrant mutex: a second acquisition by the owner blocks for ever (reported as a dead execution)"""
+
+    def acquire(self, blocking=True, timeout=-1):
+        me = self._me()
+        if self._owner == me and me[0] == "t":
+            self._sched.yield_(("stuck", self))
+            raise SchedError("a thread blocked on a Lock it holds was resumed")
+        return FakeRLock.acquire(self, blocking, timeout)
+
+    __enter__ = acquire
+
+
+class _ThreadingProxy:
+    """stands for the `threading` module inside one module's globals: the lock constructors give the cooperative fakes"""
+
+    def __init__(self, real):
+        self._real = real
+        self.RLock = FakeRLock
+        self.Lock = FakeLock
+        self.Condition = FakeCondition
+
+    def __getattr__(self, name):
+        return getattr(self._real, name)
+
+
+def install_locks(module):
+    """substitute the fakes for whatever lock constructors `module` has in its globals (`from threading import RLock, Lock,
+    Condition` and/or `import threading`); a module without any is left alone. Returns the undo function. The fakes
+    belong to the scheduler that is current (set_current) when they are CREATED."""
+    import threading as _threading
+
+    saved = {}
+    for name, fake in (("RLock", FakeRLock), ("Lock", FakeLock), ("Condition", FakeCondition)):
+        if name in vars(module) and getattr(module, name) is getattr(_threading, name):
+            saved[name] = getattr(module, name)
+            setattr(module, name, fake)
+    if vars(module).get("threading") is _threading:
+        saved["threading"] = _threading
+        module.threading = _ThreadingProxy(_threading)
+
+    def undo():
+        for name, v in saved.items():
+            setattr(module, name, v)
+
+    return undo
